@@ -6,7 +6,8 @@ files the agent named still pass with the patch, then copy to /verif/seeded/<id>
 usage: tools/import_seeded.py <pid> [--no-tests]"""
 import json, os, shutil, subprocess, sys
 pid = sys.argv[1]
-wt = '/tmp/mut/' + pid
+root = sys.argv[sys.argv.index('--root') + 1] if '--root' in sys.argv else '/tmp/mut'
+wt = root + '/' + pid
 src = os.path.join(wt, '_seeded')
 env = dict(os.environ, PYTHONPATH=wt, OPENMDAO_REPORTS='0', PYTHONHASHSEED='0')
 
